@@ -519,3 +519,288 @@ impl Check for C16 {
         Box::pin(exec_c16(script))
     }
 }
+
+// ---------------------------------------------------------------------------
+// C17: console login and roles
+// ---------------------------------------------------------------------------
+fn b64(data: &[u8]) -> String {
+    const T: &[u8; 64] = b"ABCDEFGHIJKLMNOPQRSTUVWXYZabcdefghijklmnopqrstuvwxyz0123456789+/";
+    let mut out = String::new();
+    for ch in data.chunks(3) {
+        let b = [ch[0], *ch.get(1).unwrap_or(&0), *ch.get(2).unwrap_or(&0)];
+        let n = ((b[0] as u32) << 16) | ((b[1] as u32) << 8) | b[2] as u32;
+        out.push(T[(n >> 18) as usize & 63] as char);
+        out.push(T[(n >> 12) as usize & 63] as char);
+        out.push(if ch.len() > 1 { T[(n >> 6) as usize & 63] as char } else { '=' });
+        out.push(if ch.len() > 2 { T[n as usize & 63] as char } else { '=' });
+    }
+    out
+}
+
+async fn console_login(n: &NodeH, user: &str, pass: &str) -> Option<String> {
+    let app = console_app!(n);
+    let body = format!("username={}&password={}", user, urlencode(&b64(pass.as_bytes())));
+    let r = call(&app, "POST", "/rnacos/api/console/v2/login/login", &[], Some(("application/x-www-form-urlencoded", body.into_bytes()))).await;
+    if std::env::var("RNSIM_NM_DEBUG").is_ok() {
+        eprintln!("dbg login {} -> {} {:?} {}", user, r.status, r.headers, r.text());
+    }
+    for (k, v) in &r.headers {
+        if k.eq_ignore_ascii_case("set-cookie") && v.starts_with("token=") {
+            return Some(v["token=".len()..].split(';').next().unwrap_or("").to_string());
+        }
+    }
+    None
+}
+
+/// what the middleware did with a request
+#[derive(Clone, Copy, PartialEq, Debug)]
+enum Gate {
+    NoLogin,
+    NoPermission,
+    Through(u16),
+}
+
+fn gate_of(r: &HttpResp) -> Gate {
+    let has = |name: &str| r.headers.iter().any(|(k, _)| k.eq_ignore_ascii_case(name));
+    let loc = r.headers.iter().find(|(k, _)| k.eq_ignore_ascii_case("location")).map(|(_, v)| v.clone()).unwrap_or_default();
+    if has("No-Login") || (r.status == 302 && loc.contains("/p/login")) {
+        Gate::NoLogin
+    } else if has("No-Permission") || (r.status == 302 && loc.contains("/nopermission")) {
+        Gate::NoPermission
+    } else {
+        Gate::Through(r.status)
+    }
+}
+
+fn console_login_endpoint(path: &str) -> bool {
+    ["/rnacos/api/console/login/login", "/rnacos/api/console/login/captcha", "/rnacos/api/console/v2/login/login", "/rnacos/api/console/v2/login/captcha", "/rnacos/api/console/v2/login/config", "/rnacos/api/console/v2/login/oauth2/login"].contains(&path)
+}
+
+fn is_api(path: &str) -> bool {
+    path.starts_with("/rnacos/api/")
+}
+
+/// the statement's data areas, recognised from the path: (area, self-service exception)
+fn data_area(path: &str) -> Option<&'static str> {
+    let tail = path.trim_start_matches("/rnacos/api/console/v2/").trim_start_matches("/rnacos/api/console/");
+    if tail == path {
+        return None;
+    }
+    let seg = tail.split('/').next().unwrap_or("");
+    let self_service = ["user/info", "user/web_resources", "user/reset_password"].contains(&tail);
+    match seg {
+        "user" if !self_service => Some("users"),
+        "config" | "configs" | "cs" => Some("configuration"),
+        "namespaces" | "namespace" => Some("namespaces"),
+        "naming" | "ns" | "service" | "instance" | "instances" => Some("services"),
+        "mcp" => Some("MCP"),
+        "transfer" => Some("transfer"),
+        _ => None,
+    }
+}
+
+pub async fn exec_c17(script: Value) -> ExecResult {
+    let seed = script["seed"].as_u64().unwrap_or(1);
+    let cfg: NCfg = serde_json::from_value(script["cfg"].clone()).unwrap_or_default();
+    let situation = script["situation"].as_str().unwrap_or("single").to_string();
+    tokio::fs::set_cfg(disk_cfg(&cfg));
+    tokio::fs::with_disk(|d| {
+        d.journal_on = false;
+        d.log_ops = false;
+    });
+    net_reset(seed, cfg.net.clone());
+    let root = run_root(seed);
+    let ttl_ms = cfg.node.console_login_timeout as u64 * 1000;
+    let mut digest = 0u64;
+    let mut routes_checked = 0u64;
+    let r: VResult<()> = async {
+        let mut rng = Rng::derive(seed, "C17.exec", 0);
+        let nn = cfg.nodes.max(1);
+        if nn > 1 {
+            cluster_up(&root, &cfg, "C17").await?;
+        } else {
+            let n = start_node(&root, 1, true, None, &cfg.node).await.map_err(|e| Violation::new("harness.start", e.to_string()))?;
+            vensure!(wait_leader(&n, 20_000).await.is_some(), "C17.no_leader", "single node did not become leader");
+            advance(16_000).await;
+        }
+        let n1 = node(1).unwrap();
+        // users of every role set, through the real user table
+        let role_sets: Vec<(&str, Vec<&str>)> = vec![("uvis", vec!["2"]), ("udev", vec!["1"]), ("uman", vec!["0"]), ("uvisdev", vec!["2", "1"]), ("uunknown", vec!["9"]), ("uvisx", vec!["2", "x", ""]), ("unone", vec![]), ("uodd", vec!["VISITOR", "00", "1 "])];
+        for (name, roles) in &role_sets {
+            let user = rnacos::user::model::UserDto { username: Arc::new(name.to_string()), nickname: Some(name.to_string()), password: Some(format!("pw-{}-123", name)), enable: Some(true), roles: Some(roles.iter().map(|r| Arc::new(r.to_string())).collect()), ..Default::default() };
+            match within(10_000, n1.app.user_manager.send(rnacos::user::UserManagerReq::AddUser { user, namespace_privilege_param: None })).await {
+                Some(Ok(Ok(_))) => {}
+                other => vfail!("harness.user", "cannot create user {}: {:?}", name, other.map(|r| r.map(|x| x.map(|_| ()).map_err(|e| e.to_string())).map_err(|e| e.to_string()))),
+            }
+        }
+        advance(500).await;
+        // an early session that will have expired when the sweep runs
+        let tok_expired = console_login(&n1, "uman", "pw-uman-123").await.ok_or_else(|| Violation::new("harness.login", "console login of uman refused".to_string()))?;
+        let t_old = sim::now_us() / 1000;
+        if situation == "snapshot_restart" {
+            for k in 0..(cfg.node.snapshot_log_size + 8) {
+                let req = rnacos::raft::cluster::model::SetConfigReq::new(crate::wl::cfg_key(0, 0, (k % 4) as u8), Arc::new(format!("v{}", k)));
+                let _ = within(10_000, n1.app.config_route.set_config(req)).await;
+            }
+            advance(2_000).await;
+            stop_node(1).await;
+            let n = start_node(&root, 1, true, None, &cfg.node).await.map_err(|e| Violation::new("harness.start", e.to_string()))?;
+            vensure!(wait_leader(&n, 20_000).await.is_some(), "C17.no_leader", "no leader after the restart");
+            advance(13_000).await;
+            sim::count("probe.restart_from_snapshot", 1);
+        }
+        let elapsed = sim::now_us() / 1000 - t_old;
+        if elapsed < ttl_ms + 2_000 {
+            advance(ttl_ms + 2_000 - elapsed).await;
+        }
+        let n1 = node(1).unwrap();
+        let mut sessions: BTreeMap<&str, String> = BTreeMap::new();
+        for (name, _) in &role_sets {
+            let t = console_login(&n1, name, &format!("pw-{}-123", name)).await.ok_or_else(|| Violation::new("harness.login", format!("console login of {} refused", name)))?;
+            sessions.insert(name, t);
+        }
+        let target_id = if nn > 1 { script["target"].as_u64().unwrap_or(2).min(nn) } else { 1 };
+        if target_id != 1 {
+            sim::count("probe.session_presented_on_other_node", 1);
+        }
+        advance(rng.range(0, 1500)).await;
+        let target = node(target_id).unwrap();
+        let app = console_app!(target);
+        // routing only (no middleware): which (path, method) pairs exist
+        let plain = {
+            let app_data = target.app.clone();
+            actix_web::test::init_service(App::new().app_data(Data::new(app_data.clone())).app_data(Data::new(app_data.config_addr.clone())).app_data(Data::new(app_data.naming_addr.clone())).app_data(Data::new(app_data.bi_stream_manage.clone())).configure(console_config)).await
+        };
+        let lits = path_literals();
+        let cands = candidate_paths(&lits, &["/rnacos"]);
+        sim::count("probe.candidate_paths", cands.len() as u64);
+        let mut pairs: Vec<(String, &'static str)> = vec![];
+        for p in &cands {
+            if !is_api(p) {
+                continue;
+            }
+            let r = call_with(&plain, "GET", p, &[], "", None).await;
+            if r.status == 404 {
+                continue;
+            }
+            for m in METHODS {
+                let r = if m == "GET" { r.status } else { call_with(&plain, m, p, &[], "", None).await.status };
+                if r != 404 && r != 405 {
+                    pairs.push((p.clone(), m));
+                }
+            }
+        }
+        sim::count("probe.registered_route_methods", pairs.len() as u64);
+        vensure!(pairs.len() >= 40, "C17.route_discovery", "only {} console API route x method pairs found", pairs.len());
+        let hdr = |t: &str| vec![("Token".to_string(), t.to_string())];
+        let cookie = |t: &str| vec![("Cookie".to_string(), format!("token={}", t))];
+        let mut reach: BTreeMap<(usize, &str), bool> = BTreeMap::new();
+        for (pi, (p, m)) in pairs.iter().enumerate() {
+            routes_checked += 1;
+            // (a) no valid session: nothing but the login endpoints
+            if !console_login_endpoint(p) {
+                for (label, h) in [("absent", vec![]), ("empty", hdr("")), ("garbage", hdr("0123456789abcdef0123456789abcdef0123456789abcdef0123456789abcdef")), ("garbage cookie", cookie("zz")), ("expired", hdr(&tok_expired)), ("expired cookie", cookie(&tok_expired)), ("valid+1", hdr(&format!("{}0", sessions["uman"])))] {
+                    let g = gate_of(&call_with(&app, m, p, &h, "", None).await);
+                    vensure!(g == Gate::NoLogin, "C17.reached_without_session", "{} {} with session state '{}' is not refused as not-logged-in on node {} [{}]: {:?}", m, p, label, target_id, situation, g);
+                }
+            }
+            // (b) with a session: through iff granted
+            for (name, _) in &role_sets {
+                let via_cookie = rng.chance(0.5);
+                let h = if via_cookie { cookie(&sessions[name]) } else { hdr(&sessions[name]) };
+                let resp = call_with(&app, m, p, &h, "", None).await;
+                let g = gate_of(&resp);
+                if std::env::var("RNSIM_NM_DEBUG").is_ok() {
+                    let r2 = call_with(&app, m, p, &cookie(&sessions[name]), "", None).await;
+                    let r3 = call_with(&app, m, p, &hdr(&sessions[name]), "", None).await;
+                    eprintln!("dbg {} {} {} via_cookie={} -> {:?} | cookie {:?} | header {:?} | tok {}", m, p, name, via_cookie, g, gate_of(&r2), gate_of(&r3), &sessions[name][..8]);
+                }
+                vensure!(g != Gate::NoLogin || console_login_endpoint(p), "C17.valid_session_refused", "{} {} with the live session of {} ({}) is answered not-logged-in on node {} [{}]: {} {:?} {}", m, p, name, if via_cookie { "cookie" } else { "Token header" }, target_id, situation, resp.status, resp.headers, resp.text().chars().take(120).collect::<String>());
+                reach.insert((pi, name), matches!(g, Gate::Through(_)));
+                if p.ends_with("/logout") && matches!(g, Gate::Through(_)) {
+                    // the handler did its work: the session is gone; the user logs in again
+                    let t = console_login(&n1, name, &format!("pw-{}-123", name)).await.ok_or_else(|| Violation::new("harness.login", format!("console re-login of {} refused", name)))?;
+                    sessions.insert(name, t);
+                    advance(50).await;
+                }
+            }
+        }
+        // relations between the roles, per registered pair
+        let mut granted_to_nobody = 0;
+        for (pi, (p, m)) in pairs.iter().enumerate() {
+            if console_login_endpoint(p) {
+                continue;
+            }
+            let rc = |u: &str| reach[&(pi, u)];
+            vensure!(!rc("uvis") || rc("udev"), "C17.role_order", "{} {}: a visitor gets through but a developer does not", m, p);
+            vensure!(!rc("udev") || rc("uman"), "C17.role_order", "{} {}: a developer gets through but a manager does not", m, p);
+            vensure!(rc("uvisdev") == (rc("uvis") || rc("udev")), "C17.role_union", "{} {}: a user with roles visitor+developer gets {} but visitor {} / developer {}", m, p, rc("uvisdev"), rc("uvis"), rc("udev"));
+            vensure!(rc("uvisx") == rc("uvis"), "C17.unknown_role_adds_rights", "{} {}: roles [2, x, ''] get {} but role [2] gets {}", m, p, rc("uvisx"), rc("uvis"));
+            for u in ["uunknown", "unone", "uodd"] {
+                vensure!(!rc(u), "C17.unknown_role_reaches", "{} {}: the user {} without any known role gets through", m, p, u);
+            }
+            if !rc("uman") {
+                granted_to_nobody += 1;
+            }
+            if let Some(area) = data_area(p) {
+                if *m != "GET" {
+                    vensure!(!rc("uvis"), "C17.visitor_can_change", "a visitor session gets through to {} {} ({} data, a changing method)", m, p, area);
+                }
+                if area == "users" || area == "transfer" {
+                    vensure!(!rc("udev"), "C17.developer_exceeds", "a developer session gets through to {} {} ({})", m, p, if area == "users" { "user management" } else { "full-data transfer" });
+                }
+            }
+        }
+        sim::count("probe.pairs_granted_to_nobody", granted_to_nobody);
+        sim::count("probe.pairs_visitor_through", pairs.iter().enumerate().filter(|(pi, _)| reach[&(*pi, "uvis")]).count() as u64);
+        sim::count("probe.pairs_developer_through", pairs.iter().enumerate().filter(|(pi, _)| reach[&(*pi, "udev")]).count() as u64);
+        sim::count("probe.pairs_manager_through", pairs.iter().enumerate().filter(|(pi, _)| reach[&(*pi, "uman")]).count() as u64);
+        // spellings of granted and refused routes must not open anything for a visitor or without a session
+        let mut rng2 = Rng::derive(seed, "C17.spell", 0);
+        for (pi, (p, m)) in pairs.iter().enumerate() {
+            if console_login_endpoint(p) {
+                continue;
+            }
+            for sp in spellings(p, &mut rng2) {
+                let exists = call_with(&plain, m, &sp, &[], "", None).await.status;
+                if exists == 404 || exists == 405 {
+                    continue;
+                }
+                sim::count("probe.spelling_reaches_handler", 1);
+                let g0 = gate_of(&call_with(&app, m, &sp, &[], "", None).await);
+                vensure!(g0 == Gate::NoLogin, "C17.spelling_bypass", "{} {} (a spelling of {} that reaches a handler) is not refused without a session: {:?}", m, sp, p, g0);
+                if !reach[&(pi, "uvis")] {
+                    let gv = gate_of(&call_with(&app, m, &sp, &hdr(&sessions["uvis"]), "", None).await);
+                    vensure!(!matches!(gv, Gate::Through(_)), "C17.spelling_bypass", "{} {} (a spelling of {}, which a visitor may not call) lets a visitor session through: {:?}", m, sp, p, gv);
+                }
+            }
+        }
+        digest = digest_str(&format!("{:?}", reach));
+        Ok(())
+    }
+    .await;
+    let info = RunInfo { digest, nontrivial: routes_checked >= 40, info: json!({"route_methods": routes_checked, "situation": situation}), findings: vec![] };
+    for n in live_nodes() {
+        kill_node(n.id).await;
+    }
+    ExecResult { violation: r.err(), info }
+}
+
+pub struct C17;
+impl Check for C17 {
+    fn id(&self) -> &'static str {
+        "C17"
+    }
+    fn generate(&self, seed: u64, _tier: Tier) -> Value {
+        let mut rng = Rng::derive(seed, "C17.gen", 0);
+        let mut cfg = NCfg::default();
+        let situation = *rng.pick(&["single", "single", "snapshot_restart", "other_node"]);
+        cfg.nodes = if situation == "other_node" { 2 } else { 1 };
+        cfg.node.console_login_timeout = rng.range(20, 90) as i32;
+        cfg.node.snapshot_log_size = if situation == "snapshot_restart" { rng.range(20, 40) } else { 10_000 };
+        json!({"check": "C17", "seed": seed, "cfg": cfg, "situation": situation, "target": rng.range(1, 2), "steps": []})
+    }
+    fn execute(&self, script: Value) -> LocalFut<ExecResult> {
+        Box::pin(exec_c17(script))
+    }
+}
